@@ -407,6 +407,478 @@ Section MmFacts.
   Qed.
 End MmFacts.
 
+(* ------------------------------------------------------------------------------------ *)
+(* the representation relation with the decomposition  list = used ++ free  explicit      *)
+(* ------------------------------------------------------------------------------------ *)
+Section RepFacts.
+  Context {K V : Type} `{EqDec K}.
+  Local Open Scope list_scope.
+  Local Open Scope nat_scope.
+
+  Definition kf (cs : list (dcell K V)) (n : nat) : option K :=
+    match nth_error cs n with Some c => dc_keyed c | None => None end.
+  Definition ef (cs : list (dcell K V)) (n : nat) : option (K * (V * Z)) :=
+    match nth_error cs n with
+    | Some {| dc_keyed := Some k; dc_lfu := _; dc_age := a; dc_val := Some v |} => Some (k, (v, a))
+    | _ => None
+    end.
+
+  Record rep3 (l : lfdl K V) (s : lf K V) (used free : list nat) : Prop := {
+    r_list : dl_list l = used ++ free;
+    r_end : dl_end l = l_begin free;
+    r_cap : dl_cap l = lf_cap s;
+    r_tick : dl_tick l = lf_tick s;
+    r_rnum : dl_rnum l = lf_rnum s;
+    r_rk : dl_rk l = lf_rk s;
+    r_clen : List.length (dl_cells l) = lf_cap s;
+    r_nd : NoDup (used ++ free);
+    r_llen : List.length (used ++ free) = lf_cap s;
+    r_bnd : forall n, In n (used ++ free) -> n < lf_cap s;
+    r_used : dl_used l = List.length used;
+    r_ixlen : List.length (dl_index l) = List.length used;
+    r_ixnd : NoDup (keys (dl_index l));
+    r_ents : map (ef (dl_cells l)) used = map (@Some (K * (V * Z))) (lf_ents s);
+    r_mm : rdmm (kf (dl_cells l)) (dl_mm l) = map (@Some (nat * K)) (lf_ord s);
+    r_mmnd : NoDup (map snd (dl_mm l));
+    r_mmused : forall n, In n used <-> In n (map snd (dl_mm l));
+    r_cell : forall n k v a, In n used -> ef (dl_cells l) n = Some (k, (v, a)) ->
+               assoc k (dl_index l) = Some n /\
+               exists c, nth_error (dl_cells l) n = Some c /\ dc_lfu c = Some n;
+    r_ix : forall k n, assoc k (dl_index l) = Some n -> In n used /\ kf (dl_cells l) n = Some k
+  }.
+
+  Lemma rep3_intro l s used free : rep3 l s used free -> dl_rep l s.
+  Proof.
+    intros R. destruct R. exists used, free.
+    rewrite r_list0. split; [reflexivity|].
+    repeat (split; [assumption|]). assumption.
+  Qed.
+
+  Lemma rep3_elim l s : dl_rep l s -> exists used free, rep3 l s used free.
+  Proof.
+    intros (used & free & H1 & H2 & H3 & H4 & H5 & H6 & H7 & H8 & H9 & H10 & H11 & H12 & H13 & H14 &
+            H15 & H16 & H17 & H18 & H19).
+    exists used, free. rewrite H1 in H8, H9, H10.
+    constructor; assumption.
+  Qed.
+
+  Lemma ef_cell cs n k lf a v :
+    nth_error cs n = Some {| dc_keyed := Some k; dc_lfu := lf; dc_age := a; dc_val := Some v |} ->
+    ef cs n = Some (k, (v, a)).
+  Proof. intros E. unfold ef. rewrite E. reflexivity. Qed.
+
+  Lemma ef_inv cs n k v a : ef cs n = Some (k, (v, a)) ->
+    exists lf, nth_error cs n = Some {| dc_keyed := Some k; dc_lfu := lf; dc_age := a; dc_val := Some v |}.
+  Proof.
+    unfold ef. destruct (nth_error cs n) as [[[k'|] lf a' [v'|]]|]; intros E; inversion E; subst. eauto.
+  Qed.
+
+  Lemma kf_cell cs n c : nth_error cs n = Some c -> kf cs n = dc_keyed c.
+  Proof. intros E. unfold kf. rewrite E. reflexivity. Qed.
+
+  Lemma ef_ext cs cs' n : nth_error cs' n = nth_error cs n -> ef cs' n = ef cs n.
+  Proof. intros E. unfold ef. rewrite E. reflexivity. Qed.
+  Lemma kf_ext cs cs' n : nth_error cs' n = nth_error cs n -> kf cs' n = kf cs n.
+  Proof. intros E. unfold kf. rewrite E. reflexivity. Qed.
+
+  Definition mkcell (k : K) (n : nat) (a : Z) (v : V) : dcell K V :=
+    {| dc_keyed := Some k; dc_lfu := Some n; dc_age := a; dc_val := Some v |}.
+
+  Lemma ef_mkcell cs n k m a v : nth_error cs n = Some (mkcell k m a v) -> ef cs n = Some (k, (v, a)).
+  Proof. intros E. unfold ef. rewrite E. reflexivity. Qed.
+
+  (* a used node: its cell, its index entry, its entry *)
+  Lemma used_cell l s used free n : rep3 l s used free -> In n used ->
+    exists k v a, nth_error (dl_cells l) n = Some (mkcell k n a v) /\
+                  assoc k (dl_index l) = Some n /\ In (k, (v, a)) (lf_ents s).
+  Proof.
+    intros R I.
+    destruct (reads_some _ _ _ _ (r_ents _ _ _ _ R) I) as (k & [v a] & E).
+    destruct (r_cell _ _ _ _ R n k v a I E) as (Ei & c & Ec & El).
+    destruct (ef_inv _ _ _ _ _ E) as (lf & Ec').
+    exists k, v, a. split; [|split; [exact Ei|]].
+    - rewrite Ec' in Ec. inversion Ec; subst c. simpl in El. subst lf. exact Ec'.
+    - eapply reads_in; [exact (r_ents _ _ _ _ R)|exact I|exact E].
+  Qed.
+
+  Lemma used_key l s used free n k : rep3 l s used free -> In n used -> kf (dl_cells l) n = Some k ->
+    exists v a, nth_error (dl_cells l) n = Some (mkcell k n a v) /\
+                assoc k (dl_index l) = Some n /\ In (k, (v, a)) (lf_ents s).
+  Proof.
+    intros R I Kn. destruct (used_cell _ _ _ _ _ R I) as (k' & v & a & Ec & Ei & Ie).
+    rewrite (kf_cell _ _ _ Ec) in Kn. simpl in Kn. inversion Kn; subst k'. eauto.
+  Qed.
+
+  Lemma used_inj l s used free x n k : rep3 l s used free -> In x used -> In n used ->
+    kf (dl_cells l) x = Some k -> kf (dl_cells l) n = Some k -> x = n.
+  Proof.
+    intros R Ix In' Kx Kn.
+    destruct (used_key _ _ _ _ _ _ R Ix Kx) as (_ & _ & _ & E1 & _).
+    destruct (used_key _ _ _ _ _ _ R In' Kn) as (_ & _ & _ & E2 & _).
+    congruence.
+  Qed.
+
+  Lemma rep3_nodup_used l s used free : rep3 l s used free -> NoDup used.
+  Proof. intros R. eapply nodup_app_l. exact (r_nd _ _ _ _ R). Qed.
+
+  Lemma rep3_len l s used free : rep3 l s used free -> List.length used = List.length (lf_ents s).
+  Proof. intros R. eapply reads_len. exact (r_ents _ _ _ _ R). Qed.
+
+  Lemma rep3_lookup l s used free k n : rep3 l s used free -> NoDup (keys (lf_ents s)) ->
+    assoc k (dl_index l) = Some n ->
+    In n used /\ exists v a, nth_error (dl_cells l) n = Some (mkcell k n a v) /\
+                             assoc k (lf_ents s) = Some (v, a).
+  Proof.
+    intros R Nk E. destruct (r_ix _ _ _ _ R k n E) as [I Kn]. split; auto.
+    destruct (used_key _ _ _ _ _ _ R I Kn) as (v & a & Ec & _ & Ie).
+    exists v, a. split; auto. apply In_assoc; auto.
+  Qed.
+
+  Lemma rep3_lookup_none l s used free k : rep3 l s used free ->
+    assoc k (dl_index l) = None -> assoc k (lf_ents s) = None.
+  Proof.
+    intros R E. destruct (assoc k (lf_ents s)) as [[v a]|] eqn:Ea; auto. exfalso.
+    apply assoc_In in Ea.
+    destruct (reads_in_inv _ _ _ _ _ (r_ents _ _ _ _ R) Ea) as (n & I & Fn).
+    destruct (r_cell _ _ _ _ R n k v a I Fn) as (Ei & _). congruence.
+  Qed.
+
+  (* the use count of a used node *)
+  Lemma rep3_count l s used free n k : rep3 l s used free -> In n used -> kf (dl_cells l) n = Some k ->
+    exists c, mm_count n (dl_mm l) = Some c /\ assoc2 k (lf_ord s) = Some c.
+  Proof.
+    intros R I Kn.
+    destruct (mm_count_in n (dl_mm l)) as (c & Ec). { apply (r_mmused _ _ _ _ R). exact I. }
+    exists c. split; auto. rewrite <- Ec. symmetry.
+    eapply rdmm_count; [exact Kn| |exact (r_mm _ _ _ _ R)].
+    intros x Ix Kx. eapply used_inj; eauto. apply (r_mmused _ _ _ _ R). exact Ix.
+  Qed.
+
+  (* node n (key k) is re-filed: moved inside the used part, its cell rewritten with the same
+     key, its multimap pair re-emplaced with count c' *)
+  Lemma rep3_refile l s used free n k cs' c' used' ents' L :
+    rep3 l s used free -> In n used -> kf (dl_cells l) n = Some k ->
+    Permutation used' used -> L = used' ++ free ->
+    List.length cs' = lf_cap s ->
+    (exists a v, nth_error cs' n = Some (mkcell k n a v)) ->
+    (forall m, m <> n -> nth_error cs' m = nth_error (dl_cells l) m) ->
+    map (ef cs') used' = map (@Some (K * (V * Z))) ents' ->
+    rep3 {| dl_cap := dl_cap l; dl_tick := dl_tick l; dl_rnum := dl_rnum l; dl_rk := dl_rk l;
+            dl_list := L; dl_cells := cs'; dl_end := dl_end l; dl_index := dl_index l;
+            dl_mm := mm_emplace c' n (mm_remove n (dl_mm l)); dl_used := dl_used l |}
+         (lf_with s (ord_insert c' k (rem2 k (lf_ord s))) ents') used' free.
+  Proof.
+    intros R I Kn P EL Hlen (a' & v' & Hn) Hm Hents.
+    destruct (used_key _ _ _ _ _ _ R I Kn) as (v0 & a0 & Ec0 & Ei0 & Ie0).
+    assert (P' : Permutation (used' ++ free) (used ++ free)) by (apply Permutation_app_tail; exact P).
+    assert (KF : forall m, kf cs' m = kf (dl_cells l) m).
+    { intros m. destruct (Nat.eq_dec m n) as [E|N].
+      - subst m. rewrite (kf_cell _ _ _ Hn), Kn. reflexivity.
+      - apply kf_ext. apply Hm. exact N. }
+    assert (IM : forall x, In x (map snd (mm_emplace c' n (mm_remove n (dl_mm l)))) <->
+                           x = n \/ (In x (map snd (dl_mm l)) /\ x <> n)).
+    { intros x. split.
+      - intros Ix. eapply Permutation_in in Ix; [|apply perm_mm_emplace].
+        destruct Ix as [E|Ix]; [left; auto|right].
+        rewrite snd_mm_remove in Ix. apply in_remove_nat in Ix; [exact Ix|exact (r_mmnd _ _ _ _ R)].
+      - intros Ix. eapply Permutation_in; [symmetry; apply perm_mm_emplace|].
+        destruct Ix as [E|Ix]; [left; auto|right].
+        rewrite snd_mm_remove. apply in_remove_nat; [exact (r_mmnd _ _ _ _ R)|exact Ix]. }
+    constructor; cbn [dl_cap dl_tick dl_rnum dl_rk dl_list dl_cells dl_end dl_index dl_mm dl_used
+                      lf_with lf_cap lf_tick lf_rnum lf_rk lf_ord lf_ents].
+    - exact EL.
+    - exact (r_end _ _ _ _ R).
+    - exact (r_cap _ _ _ _ R).
+    - exact (r_tick _ _ _ _ R).
+    - exact (r_rnum _ _ _ _ R).
+    - exact (r_rk _ _ _ _ R).
+    - exact Hlen.
+    - eapply Permutation_NoDup; [symmetry; exact P'|exact (r_nd _ _ _ _ R)].
+    - rewrite (Permutation_length P'). exact (r_llen _ _ _ _ R).
+    - intros m Im. apply (r_bnd _ _ _ _ R). eapply Permutation_in; eauto.
+    - rewrite (Permutation_length P). exact (r_used _ _ _ _ R).
+    - rewrite (Permutation_length P). exact (r_ixlen _ _ _ _ R).
+    - exact (r_ixnd _ _ _ _ R).
+    - exact Hents.
+    - rewrite (rdmm_ext (kf cs') (kf (dl_cells l))) by (intros; apply KF).
+      apply rdmm_emplace; [exact Kn|].
+      apply rdmm_remove; [exact Kn| |exact (r_mmnd _ _ _ _ R)|exact (r_mm _ _ _ _ R)].
+      intros x Ix Kx. eapply used_inj; eauto. apply (r_mmused _ _ _ _ R). exact Ix.
+    - eapply Permutation_NoDup; [symmetry; apply perm_mm_emplace|].
+      rewrite snd_mm_remove. constructor.
+      + intros X. apply in_remove_nat in X; [|exact (r_mmnd _ _ _ _ R)]. destruct X as [_ X]. auto.
+      + apply nodup_remove_nat. exact (r_mmnd _ _ _ _ R).
+    - intros x. rewrite IM. rewrite <- (r_mmused _ _ _ _ R). split.
+      + intros Ix. destruct (Nat.eq_dec x n) as [E|N]; [left; auto|right].
+        split; auto. eapply Permutation_in; eauto.
+      + intros [E|[Ix _]]; (eapply Permutation_in; [symmetry; exact P|]); [subst; auto|auto].
+    - intros m k0 v0' a0' Im Em.
+      assert (Im' : In m used) by (eapply Permutation_in; eauto).
+      destruct (Nat.eq_dec m n) as [E|N].
+      + subst m. rewrite (ef_cell _ _ _ _ _ _ Hn) in Em. inversion Em; subst k0 v0' a0'.
+        split; [exact Ei0|]. exists (mkcell k n a' v'). split; auto.
+      + rewrite (ef_ext (dl_cells l) cs' m (Hm m N)) in Em.
+        destruct (r_cell _ _ _ _ R m k0 v0' a0' Im' Em) as (Ea & c & Ec & El).
+        split; auto. exists c. rewrite Hm by exact N. auto.
+    - intros k0 m Em. destruct (r_ix _ _ _ _ R k0 m Em) as [Im Km]. split.
+      + eapply Permutation_in; [symmetry; exact P|exact Im].
+      + rewrite KF. exact Km.
+  Qed.
+
+  (* node n (key k) is released: it becomes the first free node *)
+  Lemma rep3_erase l s used free n k L :
+    rep3 l s used free -> NoDup (keys (lf_ents s)) -> In n used -> kf (dl_cells l) n = Some k ->
+    L = remove_nat n used ++ n :: free ->
+    rep3 {| dl_cap := dl_cap l; dl_tick := dl_tick l; dl_rnum := dl_rnum l; dl_rk := dl_rk l;
+            dl_list := L; dl_cells := dl_cells l; dl_end := It n; dl_index := remk k (dl_index l);
+            dl_mm := mm_remove n (dl_mm l); dl_used := dl_used l - 1 |}
+         (lf_erase_key s k) (remove_nat n used) (n :: free).
+  Proof.
+    intros R Nk I Kn EL.
+    pose proof (rep3_nodup_used _ _ _ _ R) as Nu.
+    destruct (used_key _ _ _ _ _ _ R I Kn) as (v0 & a0 & Ec0 & Ei0 & Ie0).
+    assert (P1 : Permutation (n :: remove_nat n used) used) by (apply perm_remove_nat; auto).
+    assert (P : Permutation (remove_nat n used ++ n :: free) (used ++ free)).
+    { eapply perm_trans; [symmetry; apply Permutation_middle|].
+      change (n :: remove_nat n used ++ free) with ((n :: remove_nat n used) ++ free).
+      apply Permutation_app_tail. exact P1. }
+    assert (L1 : S (List.length (remove_nat n used)) = List.length used).
+    { apply Permutation_length in P1. simpl in P1. exact P1. }
+    constructor; cbn [dl_cap dl_tick dl_rnum dl_rk dl_list dl_cells dl_end dl_index dl_mm dl_used
+                      lf_erase_key lf_with lf_cap lf_tick lf_rnum lf_rk lf_ord lf_ents].
+    - exact EL.
+    - reflexivity.
+    - exact (r_cap _ _ _ _ R).
+    - exact (r_tick _ _ _ _ R).
+    - exact (r_rnum _ _ _ _ R).
+    - exact (r_rk _ _ _ _ R).
+    - exact (r_clen _ _ _ _ R).
+    - eapply Permutation_NoDup; [symmetry; exact P|exact (r_nd _ _ _ _ R)].
+    - rewrite (Permutation_length P). exact (r_llen _ _ _ _ R).
+    - intros m Im. apply (r_bnd _ _ _ _ R). eapply Permutation_in; eauto.
+    - rewrite (r_used _ _ _ _ R). lia.
+    - pose proof (length_remk_S k (dl_index l) n (r_ixnd _ _ _ _ R) Ei0) as L2.
+      pose proof (r_ixlen _ _ _ _ R). lia.
+    - apply NoDup_remk. exact (r_ixnd _ _ _ _ R).
+    - eapply reads_remove; [exact (r_ents _ _ _ _ R)|exact Nk|exact I|].
+      eapply ef_cell. exact Ec0.
+    - apply rdmm_remove; [exact Kn| |exact (r_mmnd _ _ _ _ R)|exact (r_mm _ _ _ _ R)].
+      intros x Ix Kx. eapply used_inj; eauto. apply (r_mmused _ _ _ _ R). exact Ix.
+    - rewrite snd_mm_remove. apply nodup_remove_nat. exact (r_mmnd _ _ _ _ R).
+    - intros x. rewrite snd_mm_remove.
+      rewrite in_remove_nat by exact Nu. rewrite in_remove_nat by exact (r_mmnd _ _ _ _ R).
+      rewrite (r_mmused _ _ _ _ R). tauto.
+    - intros m k0 v1 a1 Im Em. apply in_remove_nat in Im; [|exact Nu]. destruct Im as [Im Nmn].
+      destruct (r_cell _ _ _ _ R m k0 v1 a1 Im Em) as (Ea & c & Ec & El).
+      split; [|eauto]. rewrite assoc_remk_other; auto.
+      intros Ek. subst k0. rewrite Ei0 in Ea. inversion Ea. auto.
+    - intros k0 m Em. destruct (Base.eqb_spec k0 k) as [Ek|Nkk].
+      { subst k0. rewrite assoc_remk_same in Em. discriminate. }
+      rewrite assoc_remk_other in Em by auto.
+      destruct (r_ix _ _ _ _ R k0 m Em) as [Im Km]. split; auto.
+      apply in_remove_nat; auto. split; auto. intros Emn; subst m. congruence.
+  Qed.
+
+  (* the first free node n is claimed for (k, v) *)
+  Lemma rep3_claim l s used n free' k v now :
+    rep3 l s used (n :: free') -> assoc k (dl_index l) = None ->
+    rep3 {| dl_cap := dl_cap l; dl_tick := dl_tick l; dl_rnum := dl_rnum l; dl_rk := dl_rk l;
+            dl_list := dl_list l; dl_cells := upd_nth n (mkcell k n now v) (dl_cells l);
+            dl_end := l_begin free'; dl_index := dl_index l ++ [(k, n)];
+            dl_mm := mm_emplace 1 n (dl_mm l); dl_used := S (dl_used l) |}
+         (lf_with s (ord_insert 1 k (lf_ord s)) (lf_ents s ++ [(k, (v, now))])) (used ++ [n]) free'.
+  Proof.
+    intros R E.
+    pose proof (rep3_nodup_used _ _ _ _ R) as Nu.
+    assert (EA : (used ++ [n]) ++ free' = used ++ n :: free') by (rewrite <- app_assoc; reflexivity).
+    assert (Nn : ~ In n used).
+    { pose proof (r_nd _ _ _ _ R) as N. apply NoDup_remove_2 in N. intros I. apply N.
+      apply in_or_app; auto. }
+    assert (Hn : n < List.length (dl_cells l)).
+    { rewrite (r_clen _ _ _ _ R). apply (r_bnd _ _ _ _ R). apply in_or_app. right; left; auto. }
+    assert (Nm : ~ In n (map snd (dl_mm l))).
+    { intros I. apply Nn. apply (r_mmused _ _ _ _ R). exact I. }
+    assert (KF : forall m, m <> n -> kf (upd_nth n (mkcell k n now v) (dl_cells l)) m = kf (dl_cells l) m).
+    { intros m N. apply kf_ext. apply nth_error_upd_neq. exact N. }
+    assert (KN : kf (upd_nth n (mkcell k n now v) (dl_cells l)) n = Some k).
+    { rewrite (kf_cell _ _ _ (nth_error_upd_eq _ _ _ _ Hn)). reflexivity. }
+    constructor; cbn [dl_cap dl_tick dl_rnum dl_rk dl_list dl_cells dl_end dl_index dl_mm dl_used
+                      lf_with lf_cap lf_tick lf_rnum lf_rk lf_ord lf_ents].
+    - rewrite EA. exact (r_list _ _ _ _ R).
+    - reflexivity.
+    - exact (r_cap _ _ _ _ R).
+    - exact (r_tick _ _ _ _ R).
+    - exact (r_rnum _ _ _ _ R).
+    - exact (r_rk _ _ _ _ R).
+    - rewrite upd_nth_len. exact (r_clen _ _ _ _ R).
+    - rewrite EA. exact (r_nd _ _ _ _ R).
+    - rewrite EA. exact (r_llen _ _ _ _ R).
+    - rewrite EA. exact (r_bnd _ _ _ _ R).
+    - rewrite app_length. simpl. rewrite (r_used _ _ _ _ R). lia.
+    - rewrite !app_length. simpl. rewrite (r_ixlen _ _ _ _ R). lia.
+    - rewrite keys_app. simpl. apply NoDup_snoc; [exact (r_ixnd _ _ _ _ R)|].
+      apply assoc_None_iff. exact E.
+    - rewrite !map_app. f_equal.
+      + rewrite <- (r_ents _ _ _ _ R). apply map_ext_in. intros m Im. apply ef_ext.
+        apply nth_error_upd_neq. intros Emn; subst; auto.
+      + simpl. f_equal. eapply ef_mkcell. apply nth_error_upd_eq. exact Hn.
+    - apply rdmm_emplace; [exact KN|].
+      rewrite (rdmm_ext _ (kf (dl_cells l))); [exact (r_mm _ _ _ _ R)|].
+      intros x Ix. apply KF. intros Exn; subst; auto.
+    - eapply Permutation_NoDup; [symmetry; apply perm_mm_emplace|].
+      constructor; [exact Nm|exact (r_mmnd _ _ _ _ R)].
+    - intros x. rewrite in_app_iff. simpl. split.
+      + intros Ix. eapply Permutation_in; [symmetry; apply perm_mm_emplace|].
+        destruct Ix as [Ix|[Ix|[]]]; [right; apply (r_mmused _ _ _ _ R); auto|left; auto].
+      + intros Ix. eapply Permutation_in in Ix; [|apply perm_mm_emplace].
+        destruct Ix as [Ix|Ix]; [right; left; auto|left; apply (r_mmused _ _ _ _ R); auto].
+    - intros m k0 v0 a0 Im Em. apply in_app_or in Im. destruct Im as [Im|[Im|[]]].
+      + assert (Nmn : m <> n) by (intros Emn; subst; auto).
+        rewrite (ef_ext (dl_cells l)) in Em by (apply nth_error_upd_neq; exact Nmn).
+        destruct (r_cell _ _ _ _ R m k0 v0 a0 Im Em) as (Ea & c & Ec & El).
+        split.
+        * rewrite assoc_app, Ea. reflexivity.
+        * exists c. rewrite nth_error_upd_neq by exact Nmn. auto.
+      + subst m. rewrite (ef_mkcell _ _ _ _ _ _ (nth_error_upd_eq _ _ _ _ Hn)) in Em.
+        inversion Em; subst k0 v0 a0. split.
+        * rewrite assoc_app, E. simpl. rewrite LfudaFacts.eqb_rfl. reflexivity.
+        * exists (mkcell k n now v). split; [apply nth_error_upd_eq; exact Hn|reflexivity].
+    - intros k0 m Em. rewrite assoc_app in Em.
+      destruct (assoc k0 (dl_index l)) as [m0|] eqn:A0.
+      + inversion Em; subst m0. destruct (r_ix _ _ _ _ R k0 m A0) as [Im Km]. split.
+        * apply in_or_app; auto.
+        * rewrite KF; auto. intros Emn; subst; auto.
+      + simpl in Em. destruct (Base.eqb_spec k0 k) as [Ek|Nk]; [|discriminate].
+        inversion Em; subst m k0. split; [apply in_or_app; right; left; auto|exact KN].
+  Qed.
+End RepFacts.
+
+(* ------------------------------------------------------------------------------------ *)
+(* the do_* helpers                                                                      *)
+(* ------------------------------------------------------------------------------------ *)
+Section OpFacts.
+  Context {K V : Type} `{EqDec K}.
+  Local Open Scope list_scope.
+  Local Open Scope nat_scope.
+
+  Lemma dcell_of_ok (s : lfdl K V) n e : In n (dl_list s) -> nth_error (dl_cells s) n = Some e ->
+    dcell_of s (It n) = Ok (n, e).
+  Proof.
+    intros I E. unfold dcell_of, l_deref. rewrite (mem_nat_in _ _ I). cbn [bind].
+    rewrite (vget_ok _ _ _ _ _ E). reflexivity.
+  Qed.
+
+  Lemma with_cells_id (l : lfdl K V) : with_cells l (dl_cells l) = l.
+  Proof. destruct l; reflexivity. Qed.
+
+  (* do_access on a used node: the computation *)
+  Lemma dl_access_ok (s : lfdl K V) used free n e k c now :
+    dl_list s = used ++ free -> dl_end s = l_begin free -> NoDup (used ++ free) -> In n used ->
+    nth_error (dl_cells s) n = Some e -> dc_lfu e = Some n -> dc_keyed e = Some k ->
+    assoc k (dl_index s) = Some n -> mm_count n (dl_mm s) = Some c ->
+    dl_access true s n now =
+      Ok {| dl_cap := dl_cap s; dl_tick := dl_tick s; dl_rnum := dl_rnum s; dl_rk := dl_rk s;
+            dl_list := remove_nat n used ++ n :: free;
+            dl_cells := upd_nth n {| dc_keyed := dc_keyed e; dc_lfu := Some n; dc_age := now;
+                                     dc_val := dc_val e |} (dl_cells s);
+            dl_end := dl_end s; dl_index := dl_index s;
+            dl_mm := mm_emplace (S c) n (mm_remove n (dl_mm s)); dl_used := dl_used s |}.
+  Proof.
+    intros Hl He N I Ec El Ek Ei Em.
+    assert (Il : In n (dl_list s)) by (rewrite Hl; apply in_or_app; auto).
+    assert (Hn : n < List.length (dl_cells s)) by (apply nth_error_Some; congruence).
+    destruct (move_to_end used free n N I) as (b & Hp & Hs).
+    unfold dl_access. rewrite (dcell_of_ok s n e Il Ec). cbn [bind].
+    unfold mm_deref, mm_erase. rewrite El, Em. cbn [bind].
+    unfold keyed_second. rewrite Ek, Ei. cbn [bind].
+    rewrite Hl, He, Hp. cbn [bind]. rewrite Hs. cbn [bind].
+    rewrite vset_ok by exact Hn. reflexivity.
+  Qed.
+
+  (* do_erase on a used node: the computation *)
+  Lemma dl_do_erase_ok (s : lfdl K V) used free n e k c :
+    dl_list s = used ++ free -> dl_end s = l_begin free -> NoDup (used ++ free) -> In n used ->
+    nth_error (dl_cells s) n = Some e -> dc_lfu e = Some n -> dc_keyed e = Some k ->
+    assoc k (dl_index s) = Some n -> mm_count n (dl_mm s) = Some c -> dl_used s = List.length used ->
+    dl_do_erase s n =
+      Ok {| dl_cap := dl_cap s; dl_tick := dl_tick s; dl_rnum := dl_rnum s; dl_rk := dl_rk s;
+            dl_list := remove_nat n used ++ n :: free; dl_cells := dl_cells s;
+            dl_end := It n; dl_index := remk k (dl_index s);
+            dl_mm := mm_remove n (dl_mm s); dl_used := dl_used s - 1 |}.
+  Proof.
+    intros Hl He N I Ec El Ek Ei Em Hu.
+    assert (Il : In n (dl_list s)) by (rewrite Hl; apply in_or_app; auto).
+    destruct (move_to_end used free n N I) as (b & Hp & Hs).
+    assert (N' : NoDup (remove_nat n used ++ n :: free)).
+    { eapply Permutation_NoDup; [|exact N].
+      eapply perm_trans; [|apply Permutation_middle].
+      change (n :: remove_nat n used ++ free) with ((n :: remove_nat n used) ++ free).
+      apply Permutation_app_tail. symmetry. apply perm_remove_nat. exact I. }
+    unfold dl_do_erase. rewrite (dcell_of_ok s n e Il Ec). cbn [bind].
+    rewrite Hl, He, Hp. cbn [bind]. rewrite Hs. cbn [bind].
+    rewrite (l_prev_app _ _ _ N'). cbn [bind].
+    unfold index_erase. rewrite Ek, Ei. cbn [bind].
+    unfold mm_erase. rewrite El, Em. cbn [bind].
+    destruct (Nat.eqb_spec (dl_used s) 0) as [Ez|Nz].
+    { exfalso. rewrite Hu in Ez. destruct used; [destruct I|discriminate]. }
+    reflexivity.
+  Qed.
+
+  (* do_access of node n (key k), its cell possibly rewritten with a new value before *)
+  Lemma access_ref t (l : lfdl K V) (s : lf K V) used free n k v0 a v cs0 now :
+    rep3 l s used free -> lf_inv t s -> In n used ->
+    nth_error (dl_cells l) n = Some (mkcell k n a v0) ->
+    List.length cs0 = lf_cap s -> nth_error cs0 n = Some (mkcell k n a v) ->
+    (forall m, m <> n -> nth_error cs0 m = nth_error (dl_cells l) m) ->
+    exists l', dl_access true (with_cells l cs0) n now = Ok l' /\
+               rep3 l' (lf_access s k v now) (remove_nat n used ++ [n]) free.
+  Proof.
+    intros R Inv I Ec Hlen Hn0 Hm0.
+    assert (Nk : NoDup (keys (lf_ents s))) by (destruct Inv as (_ & _ & X & _); exact X).
+    pose proof (rep3_nodup_used _ _ _ _ R) as Nu.
+    assert (Kn : kf (dl_cells l) n = Some k) by (rewrite (kf_cell _ _ _ Ec); reflexivity).
+    destruct (rep3_count _ _ _ _ _ _ R I Kn) as (c & Em & Ea2).
+    destruct (used_key _ _ _ _ _ _ R I Kn) as (v1 & a1 & Ec1 & Ei & Ie).
+    pose proof (dl_access_ok (with_cells l cs0) used free n (mkcell k n a v) k c now
+                  (r_list _ _ _ _ R) (r_end _ _ _ _ R) (r_nd _ _ _ _ R) I Hn0 eq_refl eq_refl Ei Em) as HA.
+    rewrite HA. eexists. split; [reflexivity|].
+    cbn [with_cells dl_cap dl_tick dl_rnum dl_rk dl_list dl_cells dl_end dl_index dl_mm dl_used
+         mkcell dc_keyed dc_val].
+    unfold lf_access, lf_count. rewrite Ea2.
+    assert (Hn : n < List.length cs0) by (apply nth_error_Some; congruence).
+    apply (rep3_refile l s used free n k _ (S c) (remove_nat n used ++ [n]) _ _ R I Kn).
+    - apply perm_remove_snoc. exact I.
+    - rewrite <- app_assoc. reflexivity.
+    - rewrite upd_nth_len. exact Hlen.
+    - exists now, v. apply nth_error_upd_eq. exact Hn.
+    - intros m Nm. rewrite nth_error_upd_neq by exact Nm. apply Hm0. exact Nm.
+    - rewrite !map_app. f_equal.
+      + erewrite map_ext_in.
+        * eapply reads_remove; [exact (r_ents _ _ _ _ R)|exact Nk|exact I|].
+          eapply ef_mkcell. exact Ec.
+        * intros m Im. apply in_remove_nat in Im; [|exact Nu]. destruct Im as [_ Nm].
+          apply ef_ext. rewrite nth_error_upd_neq by exact Nm. apply Hm0. exact Nm.
+      + simpl. f_equal. eapply ef_mkcell. apply nth_error_upd_eq. exact Hn.
+  Qed.
+
+  (* do_erase of the used node n holding key k *)
+  Lemma erase_ref t (l : lfdl K V) (s : lf K V) used free n k :
+    rep3 l s used free -> lf_inv t s -> In n used -> kf (dl_cells l) n = Some k ->
+    exists l', dl_do_erase l n = Ok l' /\
+               rep3 l' (lf_erase_key s k) (remove_nat n used) (n :: free).
+  Proof.
+    intros R Inv I Kn.
+    assert (Nk : NoDup (keys (lf_ents s))) by (destruct Inv as (_ & _ & X & _); exact X).
+    destruct (rep3_count _ _ _ _ _ _ R I Kn) as (c & Em & Ea2).
+    destruct (used_key _ _ _ _ _ _ R I Kn) as (v1 & a1 & Ec1 & Ei & Ie).
+    rewrite (dl_do_erase_ok l used free n (mkcell k n a1 v1) k c
+               (r_list _ _ _ _ R) (r_end _ _ _ _ R) (r_nd _ _ _ _ R) I Ec1 eq_refl eq_refl Ei Em
+               (r_used _ _ _ _ R)).
+    eexists. split; [reflexivity|].
+    apply rep3_erase; auto.
+  Qed.
+End OpFacts.
+
 Section LfudaLitFacts.
   Context {K V : Type} `{EqDec K}.
 
